@@ -131,6 +131,16 @@ CHECKS = {
         technique="abstract interpretation of handlers on scenario x state products with effect recording; syntax-tree ownership scan",
         note="trusted: read_snmp_values replaced by a no-op; datagram bodies of fixed analysed length; histories are covered as (any stored state) x (any next datagram), i.e. inductively per step",
         ref="DESIGN.md §3 C18"),
+    "C19": dict(
+        text="Static whole-library alias / mutation-effect analysis (sa/effects.py, 620+ functions, fixpoint over the resolved call graph, calling contexts for constant flag arguments): every in-place operation is attributed to the origins of its object — "
+             "a parameter, or a process-lifetime object (class-/module-level mutable value, mutable default value, lru_cache result). Rules: no function mutates a process-lifetime object (inventory of ~70 objects and 18 mutable defaults; the CRC singletons are discharged by a "
+             "re-initialised-before-use proof over init/update/digest field sets, MBXML.DEBUG by a diagnostic-only-reads rule, memo stores only when the key determines the value); no codec function mutates a buffer parameter directly, through an alias or by passing it on "
+             "(6 documented in-place helpers listed with reasons, call sites still checked); read-path methods apply no toggling in-place operation to self; no codec function or import-time default expression reaches a clock / random source. "
+             "A probe module with one seeded violation per rule is analysed on every run (positive controls) together with pure twins.",
+        technique="flow-sensitive intraprocedural alias analysis with interprocedural mutation / return-alias summaries, field-sensitive shared-origin store, call-graph reachability; must-pass-through + field-set rule for the CRC register",
+        note="decides the absence of every mechanism by which call history could matter (shared mutable state, argument aliasing, clock), not result equality over histories as such; unresolved receivers are over-approximated by method name (reported only when they reach shared state); "
+             "external library calls assumed non-mutating except a listed set; threads out of scope",
+        ref="DESIGN.md §3 C19"),
     "C20": dict(
         text="Static: ownership rules over the syntax tree (registry writers, read-only lookups, single writer of Repeater.id) plus abstract interpretation of the real storage methods on scenario sequences with symbolic patch values "
              "(identity of repeated lookups, growth only on auto-create of unseen addresses, key == record.id coherence, patch touches exactly the named fields of exactly the matched record).",
